@@ -1,25 +1,28 @@
-import os
-
 F = "internal/filter/"
-_ENV = {"VERIF_KNOWN": os.environ["VERIF_C12_KNOWN"]} if os.environ.get("VERIF_C12_KNOWN") else {}
 
 CHECK = dict(
     level="exploration",
-    level_text="placeholder",
-    level_note="placeholder",
-    technique="property-based testing (rapid)",
-    assumptions=[],
+    level_text="Generated-input search (rapid). (a, b) Stateful histories of requests and upstream responses from three profiles and the anonymous group (own blocking mode, filtered TTL, EDE, rule lists, blocked services, safe search, hash-prefix filters, custom rules), over six overlapping hosts and six question types with varying header flags, EDNS and 0x20 case, interleaved with storage refreshes after rule-list / index / service-index / safe-search changes, hash-list refreshes and custom-rule updates (newer update time, same or changed rules), run against a real filterstorage.Default with every result cache on and against a twin whose rule-list and service caches are configured off and whose remaining caches (hash-prefix, safe-search, custom) are purged through the cache manager before every query; both download from one HTTP server whose per-path content the harness versions (staleness 0, download counts checked). Verdict kind, list, rule and the complete message must be equal at every step, and every verdict must follow from the current list versions (membership model: matching of a single rule by urlfilter is trusted, composition, versions and refreshes are not). (c) Refreshes concurrent with queries under -race with sampled schedules: only the post-quiescence clause is asserted. (c') One owned schedule for the hash-prefix filter: an in-flight FilterRequest is parked between computing its verdict and storing it (the filter's result cache is wrapped in-package), the refresh runs, the query completes, the key is asked again. Held on N generated cases is evidence, not proof.",
+    level_note="Rule lists are drawn from a restricted grammar without client-specific modifiers (the statement's precondition): ||h^, @@||h^, |h^, $dnstype=A / ~A, $important, hosts-style, $dnsrewrite A / AAAA / CNAME / REFUSED, answer-address rules; no $badfilter, no $dnsrewrite exceptions, no rewrite of a name to itself. urlfilter v0.20.0 ignores DNSRequest.Answer, so a cache key without isAnswer cannot be observed through any interface; a hash-prefix cache key without the class cannot either. Goroutine schedules in (c) are sampled, not enumerated; in (c') a 40 ms grace period only selects which of two valid schedules is explored when the refresh does not reach the result cache (an implementation that makes the refresh wait for in-flight queries), it is never a verdict.",
+    technique="property-based testing (rapid): stateful histories vs a cache-disabled / purged twin storage (differential) plus a list-version membership model; sampled concurrent refreshes under the race detector; one harness-owned schedule of a query in flight across a refresh",
+    assumptions=[
+        "miekg/dns, the agdcache LRU, and urlfilter's matching of one rule of the restricted grammar are trusted; the harness model composes single-rule matches, it does not re-implement pattern matching",
+        "requests reach the filter as mainmw builds them: Host lowercased without the trailing dot, one question, ForConfig called per request; a profile's custom UpdateTime moves forward whenever its rules change (backendpb sets it to the synchronisation time)",
+        "a list refresh that is not given a fault succeeds; an error report to the error collector, a failed refresh or a list that is not downloaded again with staleness 0 makes the run inconclusive, not a violation",
+        "cache files are kept on /dev/shm when it exists (every download ends in an fsync); their content is not part of this property (C13)",
+        "random urlfilter list IDs (31 bits) of the lists of one composite filter do not collide",
+    ],
     units=[
         dict(name="filterstorage", dir=F + "filterstorage", src="C12/filterstorage", runs=[
-            dict(name="histories", run="^TestVerifC12Histories$", quick=600, thorough=30000, shards_quick=2, shards_thorough=10, env=_ENV),
+            dict(name="histories", run="^TestVerifC12Histories$", quick=600, thorough=30000, shards_quick=2, shards_thorough=10),
         ]),
         # A unit of its own: the driver writes one overlay file per unit name, and the plain and the -race build of one
         # unit would write it concurrently.
         dict(name="filterstorage_race", dir=F + "filterstorage", src="C12/filterstorage", runs=[
-            dict(name="concurrent", run="^TestVerifC12Concurrent$", quick=60, thorough=2400, shards_thorough=4, race=True, env=_ENV),
+            dict(name="concurrent", run="^TestVerifC12Concurrent$", quick=60, thorough=2400, shards_thorough=4, race=True),
         ]),
         dict(name="hashprefix", dir=F + "hashprefix", src="C12/hashprefix", runs=[
-            dict(name="refreshrace", run="^TestVerifC12RefreshRace$", quick=250, thorough=6000, shards_thorough=3, env=_ENV),
+            dict(name="refreshrace", run="^TestVerifC12RefreshRace$", quick=250, thorough=6000, shards_thorough=3),
         ]),
     ],
 )
